@@ -140,7 +140,8 @@ def reader_family(ck, rnd, tier, wd, trace, owner, scripts_by):
         p = os.path.join(wd, "lead%d.zck" % ht); open(p, "wb").write(buf)
         for calls in (("read_lead",), ("validate_lead",), ("read_lead", "read_header"), ("validate_lead", "validate_lead"), ("validate_lead", "read_lead", "read_header")):
             for k in range(1, 2 * len(calls) + 2):
-                for kind, errs in (("r", ERRS), ("s", ERRS[:1])):
+                # (EIO and ENOSPC: a library that retries an interrupted read and then succeeds has achieved what it reports)
+                for kind, errs in (("r", ERRS[:2]), ("s", ERRS[:1])):
                     for a in errs:
                         cid = "lead%d-%s-%s%d-%d" % (ht, "".join(c[0] + c[-1] for c in calls), kind, k, a)
                         L = ["case %s 30" % cid, "ctx 0", "open 0 %s r" % p, "init_adv_read 0 0", "shim_fault %s 0 %d %d" % (kind, k, a)] + ["%s 0" % c for c in calls] + ["end"]
